@@ -96,14 +96,52 @@ def build(tier="quick", seed=0):
         ensure(b, fn, "torque", paths, lambda p: sp.Eq(C * p.value, Mh * dUdO), pre, clause="ensures C dOmega/dt == Mhost dU/dOmega")
         no_raise(b, fn, paths, pre)
 
+    arrays(b)
     call_sites(b)
     dual_call_site(b)
+    imported_from_C10(b)
     b.replayer("*::ensures:*", lambda ob, res: replay(dict(obligation=ob.oid)))
-    b.assume("heating_i = Mhost_i (n dU/dM_i - Omega_i dU/dOmega_i) is the C10 postcondition of the mode collapse; used here as a hypothesis")
+    b.assume("heating_i = Mhost_i (n dU/dM_i - Omega_i dU/dOmega_i) is the C10 postcondition of the mode collapse; used here as a hypothesis, and discharged here on three covering (l_max, truncation, obliquity) configurations (all configurations: C10)")
     b.assume("at zero obliquity dU/dw = dU/dOmega (C10 key fact: only m = l-2p terms survive)")
     b.assume("angular-momentum clause excludes the sliver 0 < |n a^2 e| <= 2^-52 where the code returns de/dt = 0 by design")
-    b.assume("array inputs: numpy element-wise arithmetic applies the scalar expression per element (no loops in these functions)")
+    b.assume("array inputs: two-element arrays of independent symbols with numpy object semantics (broadcast of scalars, element-wise operators, comparisons and masks); longer arrays and mixed shapes follow by the same element-wise rules, not re-proved")
     return b
+
+
+def imported_from_C10(b):
+    """the hypotheses this property takes from C10 are discharged here too, on the real mode_manipulation.py / quick_tides.py (both anchored by this
+    property): per-mode heating / derivative identity and its grouped form for two covering configurations, and the argument binding of
+    quick_tidal_dissipation (signed modes for every rheology)."""
+    from contracts import C10
+    for cfg in ((2, 2, True, False, False), (3, 4, True, False, False), (2, 6, False, True, False)):
+        sub = C10._one_config_clean(cfg)
+        b.extend(sub.obligations)
+        b.functions.update(sub.functions)
+        b.subset_exits += sub.subset_exits
+        b.stats["paths"] += sub.stats["paths"]
+    b.replayer("*[maxl*", lambda ob, res: C10.replay(dict(obligation=ob.oid)))
+    C10.quick_tides_pipeline(b)
+
+
+def arrays(b):
+    """array inputs give the same rates element-wise as scalar calls (the last clause of the statement): relational postcondition on the real functions"""
+    pre = [sp.Gt(a, 0), sp.Gt(n, 0), sp.Ge(e, 0), sp.Lt(e, 1), sp.Gt(M1, 0), sp.Gt(M2, 0)]
+    for F, dual in ((FS, False), (FD, True)):
+        args = dict(semi_major_axis=a, orbital_motion=n, mass_1=M1, dU_dM_1=dM1, mass_2=M2)
+        arr = ["semi_major_axis", "orbital_motion", "dU_dM_1"]
+        if dual:
+            args["dU_dM_2"] = dM2
+            arr.append("dU_dM_2")
+        elementwise(b, F, "semi_major_axis_derivative", args, arr, pre, globals_env=GENV)
+        args = dict(semi_major_axis=a, orbital_motion=n, eccentricity=e, mass_1=M1, dU_dM_1=dM1, dU_dw_1=dw1, mass_2=M2)
+        arr = ["semi_major_axis", "orbital_motion", "eccentricity", "dU_dM_1", "dU_dw_1"]
+        if dual:
+            args.update(dU_dM_2=dM2, dU_dw_2=dw2)
+            arr += ["dU_dM_2", "dU_dw_2"]
+        elementwise(b, F, "eccentricity_derivative", args, arr, pre, globals_env=GENV)
+        elementwise(b, F, "semia_eccen_derivatives", args, arr, pre, globals_env=GENV)
+    dUdO, C, Mh = R("dU_dO"), R("moment_of_inertia"), R("host_mass")
+    elementwise(b, FS, "spin_rate_derivative", dict(dU_dO=dUdO, moment_of_inertia=C, host_mass=Mh), ["dU_dO"], [sp.Gt(C, 0), sp.Gt(Mh, 0)])
 
 
 def _denom_big(p):
